@@ -149,6 +149,15 @@ pub fn hcalc_reducer_small(s: &mut Src) -> R {
     ob!(fb(t0) && fb(t1) && fb(t2), "ChainReducer::trans::F.B==I");
     ob!((&t1.forward_mat() * &d0).into_dense() == (&e0 * &t0.forward_mat()).into_dense() && (&t2.forward_mat() * &d1).into_dense() == (&e1 * &t1.forward_mat()).into_dense(), "ChainReducer::trans::forward-is-a-chain-map");
     ob!((&d0 * &t0.backward_mat()).into_dense() == (&t1.backward_mat() * &e0).into_dense() && (&d1 * &t1.backward_mat()).into_dense() == (&t2.backward_mat() * &e1).into_dense(), "ChainReducer::trans::backward-is-a-chain-map");
+    // transfer maps tracked for one degree only (set_matrix's per-degree flag): sizes and F B = I must still follow the reduction
+    let only = s.small(0, 2) as isize;
+    let mut one = ChainReducer::<isize, i64>::new(0..=2isize, 1);
+    for i in 0..=2isize { one.set_matrix(i, ds[i as usize].clone(), i == only); }
+    one.reduce_all(false); one.reduce_all(true);
+    let t = one.trans(only).unwrap();
+    let cur = one.matrix(only).unwrap().ncols();
+    ob!(t.tgt_dim() == cur && t.forward_mat().nrows() == cur, "ChainReducer::trans(one-sided)::target-size-is-the-reduced-rank");
+    ob!((&t.forward_mat() * &t.backward_mat()).into_dense() == SpMat::<i64>::id(cur).into_dense(), "ChainReducer::trans(one-sided)::F.B==I");
     Ok(())
 }
 
